@@ -12,8 +12,92 @@ from props import c04 as R
 CLASSES_C05 = {4: 'ring_in_unit', 5: 'nested_in_unit', 10: 'stale_recipe'}
 
 
+_ORD = {'.': 0, '-': 1, '=': 2, '#': 3, '$': 4}
+
+
+def _oord(sym):
+    return _ORD[sym] if sym is not None else 1
+
+
+def _g_chain(chain):
+    """mirror of UnitsDefs.g_chain: flat segments; None when the shape is not expressible"""
+    out = []
+    for it in chain:
+        out.append({'k': 'P', 'open': False, 'n': it['n'], 'm': it['m'], 'r': it['r'], 'b': it['b'], 'cl': []})
+        pending = it['b']
+        for j, br in enumerate(it['br']):
+            if not br['c']:
+                return None
+            if br['m'] is None:
+                w = _g_chain(br['c'])
+                if w is None:
+                    return None
+                w[0]['open'] = True
+                w[-1]['cl'] = w[-1]['cl'] + [br['a']]
+                out += w
+            else:
+                if any(x['r'] or x['br'] for x in br['c']):
+                    return None
+                if int(br['m']) >= 2 and j == 0 and it['r']:
+                    return None
+                out.append({'k': 'U', 'n': it['n'], 'b': pending, 'body': br['c'], 'ms': br['ms'], 'm': br['m'],
+                            'a': br['a'], 'cl': []})
+            pending = br['a']
+    return out
+
+
+def units_test(a):
+    """mirror of ReaderCheck.units_test (UnitsDefs.units_ok without the name conditions): the decidable side
+    condition of C05_branch_ast_partial - where it holds the reader is PROVED right"""
+    segs = _g_chain(a) if a else None
+    if segs is None:
+        return False
+    md, cur, pend, names = 'clean', None, 1, []
+
+    def pops(cl):
+        nonlocal cur, pend, names
+        for c in cl:
+            if not names:
+                return False
+            cur, pend, names = names[0], _oord(c), names[1:]
+        return True
+    for s in segs:
+        cl = s['cl']
+        if any(c is not None for c in cl[:-1]):
+            return False
+        if s['k'] == 'P':
+            if cl and s['b'] is not None:
+                return False
+            if s['open']:
+                if cur is None:
+                    return False
+                names = [cur] + names
+                md1 = 'dirty' if md == 'dirty' else 'clean'
+            else:
+                md1 = 'clean' if md == 'clean' else 'dirty'
+            cur, pend = s['n'], _oord(s['b'])
+            if not pops(cl):
+                return False
+            if cl:
+                md = 'clean' if not names else ('sib' if (md1 == 'clean' and len(cl) == 1) else 'dirty')
+            else:
+                md = md1
+        else:
+            if md == 'dirty' or cur != s['n'] or pend != _oord(s['b']):
+                return False
+            if s['body'][-1]['b'] is not None or int(s['m']) < 1 or (cl and s['a'] is not None):
+                return False
+            cur, pend = s['n'], _oord(s['a'])
+            if not pops(cl):
+                return False
+            md = 'clean' if not names else 'dirty'
+    return True
+
+
 def py_class(a, braces=True):
-    """mirror of Grammar.cls_* (only used to steer the generators; the verdict uses the Coq predicates)"""
+    """mirror of ReaderCheck.class_C05 (only used to steer the generators; the verdict uses the Coq predicates)"""
+    if units_test(a):
+        return 0
     its = list(G.items_in_order(a))
     sites = [(it, j, br) for it in its for j, br in enumerate(it['br'])]
     mval = lambda br: int(br['m']) if br['m'] is not None else 1
